@@ -1,33 +1,73 @@
 /-
-C18 — soundness of the ownership checker (frame part): if every function of a program is consistent
-with its tags and summary (`bodyOk`), then every execution (every trace, every heap, every argument
-layout) of a function changes an array that existed at the call only if that array is addressed by a
-parameter listed in the function's `touches` summary.
+C18 — soundness of the ownership checker.  If every function of a program is consistent with its tags
+and summary (`bodyOk`), then for every execution (every trace, every heap, every argument layout):
+
+* **frame**: an array that existed at the call changes only if it is addressed by a parameter listed in
+  the function's `touches` summary;
+* **windows**: every slice the function ever holds (and every slice it returns) lies in memory allocated
+  during the call, or — for a parameter that is not in `touches` — inside the *visible window* of one of
+  that parameter's slices: the function never addresses spare capacity or neighbouring bytes of such an
+  argument.
 -/
 import BtcVerif.Proofs.SliceHeap
 
 namespace BtcVerif.Proofs.SliceHeap
 open BtcVerif.Model.SliceHeap
 
-/-- `s` lives in memory allocated after the call (`n0 ≤ arr`) or in an array of a parameter in `T` -/
-def Own (P : Nat → Nat → Prop) (n0 : Nat) (T : List Nat) (s : Slice) : Prop :=
-  n0 ≤ s.arr ∨ ∃ j ∈ T, P j s.arr
+/-- array `a` is addressed (anywhere: visible window or spare capacity) by argument register `j` -/
+def Addresses (args : Env) (j a : Nat) : Prop := ∃ s ∈ args j, s.arr = a
+
+/-- what a slice tagged with parameter `j` may be: anywhere in the arrays of `j` if the function's
+summary says it touches `j`; otherwise inside the visible window of one of `j`'s slices -/
+def W (f : FuncIR) (args : Env) (j : Nat) (s : Slice) : Prop :=
+  (j ∈ f.touches ∧ ∃ t ∈ args j, s.arr = t.arr) ∨ (∃ t ∈ args j, Within s t)
+
+theorem W.addr {f args j s} (h : W f args j s) : Addresses args j s.arr := by
+  rcases h with ⟨_, t, ht, he⟩ | ⟨t, ht, hw⟩
+  · exact ⟨t, ht, he.symm⟩
+  · exact ⟨t, ht, hw.1.symm⟩
+
+theorem W.sub {f args j s t} (h : W f args j t) (hw : Within s t) : W f args j s := by
+  rcases h with ⟨hj, u, hu, he⟩ | ⟨u, hu, hwu⟩
+  · exact Or.inl ⟨hj, u, hu, hw.1.trans he⟩
+  · exact Or.inr ⟨u, hu, hw.trans hwu⟩
+
+theorem W.touched {f args j s t} (h : W f args j t) (hj : j ∈ f.touches) (he : s.arr = t.arr) :
+    W f args j s := by
+  obtain ⟨u, hu, hue⟩ := h.addr
+  exact Or.inl ⟨hj, u, hu, he.trans hue.symm⟩
+
+/-- `s` lives in memory allocated after the call (`n0 ≤ arr`) or is a permitted view of a parameter in `T` -/
+def Own (f : FuncIR) (args : Env) (n0 : Nat) (T : List Nat) (s : Slice) : Prop :=
+  n0 ≤ s.arr ∨ ∃ j ∈ T, W f args j s
 
 /-- every register respects its tag -/
-def EnvOk (P : Nat → Nat → Prop) (n0 : Nat) (f : FuncIR) (env : Env) : Prop :=
-  ∀ r s, s ∈ env r → Own P n0 (tagOf f r) s
+def EnvOk (f : FuncIR) (args : Env) (n0 : Nat) (env : Env) : Prop :=
+  ∀ r s, s ∈ env r → Own f args n0 (tagOf f r) s
 
 /-- registers declared capped hold only slices with `cap = len` -/
 def CapOk (f : FuncIR) (env : Env) : Prop :=
   ∀ r, f.cappedRegs.contains r = true → ∀ s, s ∈ env r → s.cap = s.len
 
-theorem Own.mono {P n0 T T'} {s : Slice} (h : Own P n0 T s) (hsub : ∀ x ∈ T, x ∈ T') : Own P n0 T' s := by
+theorem Own.mono {f args n0 T T'} {s : Slice} (h : Own f args n0 T s) (hsub : ∀ x ∈ T, x ∈ T') :
+    Own f args n0 T' s := by
   rcases h with h | ⟨j, hj, hp⟩
   · exact Or.inl h
   · exact Or.inr ⟨j, hsub j hj, hp⟩
 
-theorem envOk_upd {P n0 f env} (henv : EnvOk P n0 f env) (x : Nat) (v : Val)
-    (hv : ∀ s ∈ v, Own P n0 (tagOf f x) s) : EnvOk P n0 f (upd env x v) := by
+theorem Own.sub {f args n0 T} {s t : Slice} (h : Own f args n0 T t) (hw : Within s t) : Own f args n0 T s := by
+  rcases h with h | ⟨j, hj, hp⟩
+  · exact Or.inl (by rw [hw.1]; exact h)
+  · exact Or.inr ⟨j, hj, hp.sub hw⟩
+
+theorem Own.touched {f args n0 T} {s t : Slice} (h : Own f args n0 T t) (hsub : subset T f.touches = true)
+    (he : s.arr = t.arr) : Own f args n0 T s := by
+  rcases h with h | ⟨j, hj, hp⟩
+  · exact Or.inl (by rw [he]; exact h)
+  · exact Or.inr ⟨j, hj, hp.touched (subset_mem hsub j hj) he⟩
+
+theorem envOk_upd {f args n0 env} (henv : EnvOk f args n0 env) (x : Nat) (v : Val)
+    (hv : ∀ s ∈ v, Own f args n0 (tagOf f x) s) : EnvOk f args n0 (upd env x v) := by
   intro r s hs
   unfold upd at hs
   split at hs
@@ -55,24 +95,24 @@ theorem mem_flatMap_env {env : Env} {ys : List Nat} {t : Slice} (h : t ∈ ys.fl
   rw [List.mem_flatMap] at h; exact h
 
 /-- what one simple statement may do -/
-structure StepOk (P : Nat → Nat → Prop) (n0 : Nat) (f : FuncIR) (h : Heap) (r : Heap × Env) : Prop where
+structure StepOk (f : FuncIR) (args : Env) (n0 : Nat) (h : Heap) (r : Heap × Env) : Prop where
   len : h.length ≤ r.1.length
-  frame : ∀ a, a < n0 → (∀ j ∈ f.touches, ¬ P j a) → r.1[a]? = h[a]?
-  env : EnvOk P n0 f r.2
+  frame : ∀ a, a < n0 → (∀ j ∈ f.touches, ¬ Addresses args j a) → r.1[a]? = h[a]?
+  env : EnvOk f args n0 r.2
   cap : CapOk f r.2
 
-theorem not_touched {P : Nat → Nat → Prop} {n0 : Nat} {f : FuncIR} {T : List Nat} {t : Slice}
-    (hown : Own P n0 T t) (hsub : subset T f.touches = true) (a : Nat) (ha : a < n0)
-    (hnt : ∀ j ∈ f.touches, ¬ P j a) : a ≠ t.arr := by
+theorem not_touched {f : FuncIR} {args : Env} {n0 : Nat} {T : List Nat} {t : Slice}
+    (hown : Own f args n0 T t) (hsub : subset T f.touches = true) (a : Nat) (ha : a < n0)
+    (hnt : ∀ j ∈ f.touches, ¬ Addresses args j a) : a ≠ t.arr := by
   intro heq
   rcases hown with h | ⟨j, hj, hp⟩
   · omega
-  · exact hnt j (subset_mem hsub j hj) (heq ▸ hp)
+  · exact hnt j (subset_mem hsub j hj) (heq ▸ hp.addr)
 
-theorem stepSimple_ok (prog : List FuncIR) (P : Nat → Nat → Prop) (n0 : Nat) (f : FuncIR) (st : Stmt)
+theorem stepSimple_ok (prog : List FuncIR) (args : Env) (n0 : Nat) (f : FuncIR) (st : Stmt)
     (ns : List Nat) (bs : List UInt8) (h : Heap) (env : Env)
-    (hok : stmtOk prog f st = true) (hn0 : n0 ≤ h.length) (henv : EnvOk P n0 f env) (hcap : CapOk f env) :
-    StepOk P n0 f h (stepSimple st ns bs h env) := by
+    (hok : stmtOk prog f st = true) (hn0 : n0 ≤ h.length) (henv : EnvOk f args n0 env) (hcap : CapOk f env) :
+    StepOk f args n0 h (stepSimple st ns bs h env) := by
   cases st with
   | alloc x =>
     simp only [stmtOk, Bool.not_eq_true'] at hok
@@ -91,25 +131,19 @@ theorem stepSimple_ok (prog : List FuncIR) (P : Nat → Nat → Prop) (n0 : Nat)
     refine ⟨Nat.le_refl _, fun _ _ _ => rfl, ?_, capOk_upd hcap _ _ hok.1⟩
     apply envOk_upd henv
     intro s hs
-    obtain ⟨t, ht, harr⟩ := picks_mem subWindow _ (fun t s => s.arr = t.arr)
-      (fun t lo hi s hh => (subWindow_spec t lo hi s hh).1) ns s hs
+    obtain ⟨t, ht, hw⟩ := picks_mem subWindow _ (fun t s => Within s t)
+      (fun t lo hi s hh => subWindow_within t lo hi s hh) ns s hs
     obtain ⟨y, hy, hty⟩ := mem_flatMap_env ht
-    have := henv y t hty
-    unfold Own at this ⊢
-    rw [harr]
-    exact Own.mono this (subset_mem (hok.2 y hy))
+    exact ((henv y t hty).sub hw).mono (subset_mem (hok.2 y hy))
   | capped x y =>
     simp only [stmtOk] at hok
     simp only [stepSimple]
     refine ⟨Nat.le_refl _, fun _ _ _ => rfl, ?_, ?_⟩
     · apply envOk_upd henv
       intro s hs
-      obtain ⟨t, ht, harr⟩ := picks_mem subCapped _ (fun t s => s.arr = t.arr)
-        (fun t lo hi s hh => (subCapped_spec t lo hi s hh).1) ns s hs
-      have := henv y t ht
-      unfold Own at this ⊢
-      rw [harr]
-      exact Own.mono this (subset_mem hok)
+      obtain ⟨t, ht, hw⟩ := picks_mem subCapped _ (fun t s => Within s t)
+        (fun t lo hi s hh => subCapped_within t lo hi s hh) ns s hs
+      exact ((henv y t ht).sub hw).mono (subset_mem hok)
     · apply capOk_upd_capped hcap
       intro s hs
       obtain ⟨t, _, hc⟩ := picks_mem subCapped _ (fun _ s => s.cap = s.len)
@@ -123,10 +157,7 @@ theorem stepSimple_ok (prog : List FuncIR) (P : Nat → Nat → Prop) (n0 : Nat)
     intro s hs
     obtain ⟨t, ht, harr⟩ := picks_mem subBeyond _ (fun t s => s.arr = t.arr)
       (fun t lo hi s hh => subBeyond_spec t lo hi s hh) ns s hs
-    have := henv y t ht
-    unfold Own at this ⊢
-    rw [harr]
-    exact Own.mono this (subset_mem hok.1.2)
+    exact ((henv y t ht).touched hok.2 harr).mono (subset_mem hok.1.2)
   | append x y =>
     simp only [stmtOk, Bool.and_eq_true, Bool.not_eq_true', Bool.or_eq_true] at hok
     obtain ⟨⟨hxc, hsub⟩, hwr⟩ := hok
@@ -146,8 +177,17 @@ theorem stepSimple_ok (prog : List FuncIR) (P : Nat → Nat → Prop) (n0 : Nat)
         intro s hs
         simp only [List.mem_singleton] at hs
         subst hs
-        rcases goAppend_arr h t bs with heq | hge
-        · unfold Own; rw [heq]; exact Own.mono hown (subset_mem hsub)
+        rcases goAppend_res h t bs with ⟨heq, hle⟩ | hge
+        · rw [heq]
+          rcases hwr with hc | htouch
+          · -- capped: in place only when nothing is appended — the same slice
+            have hcl := hcap y hc t htmem
+            have : bs.length = 0 := by omega
+            have hsame : ({ t with len := t.len + bs.length } : Slice) = t := by
+              rw [this]; cases t; rfl
+            rw [hsame]
+            exact hown.mono (subset_mem hsub)
+          · exact (hown.touched (s := { t with len := t.len + bs.length }) htouch rfl).mono (subset_mem hsub)
         · exact Or.inl (by omega)
   | store x =>
     simp only [stmtOk] at hok
@@ -188,5 +228,249 @@ theorem stepSimple_ok (prog : List FuncIR) (P : Nat → Nat → Prop) (n0 : Nat)
   | ret ds cs =>
     simp only [stepSimple]
     exact ⟨Nat.le_refl _, fun _ _ _ => rfl, henv, hcap⟩
+
+/-- what a whole execution may do -/
+structure RunOk (f : FuncIR) (args : Env) (n0 : Nat) (h : Heap) (r : Heap × Val × Val × Env) : Prop where
+  len : h.length ≤ r.1.length
+  frame : ∀ a, a < n0 → (∀ j ∈ f.touches, ¬ Addresses args j a) → r.1[a]? = h[a]?
+  retD : ∀ s ∈ r.2.1, Own f args n0 f.retD s
+  retC : ∀ s ∈ r.2.2.1, Own f args n0 f.retC s
+  env : EnvOk f args n0 r.2.2.2
+
+theorem bodyOk_stmt {prog : List FuncIR} {f : FuncIR} (hb : bodyOk prog f = true) {idx : Nat} {st : Stmt}
+    (hst : f.body[idx]? = some st) : stmtOk prog f st = true := by
+  unfold bodyOk at hb
+  simp only [Bool.and_eq_true, List.all_eq_true] at hb
+  exact hb.2 st (List.mem_of_getElem? hst)
+
+theorem bodyOk_params {prog : List FuncIR} {f : FuncIR} (hb : bodyOk prog f = true) {r : Nat}
+    (hr : f.tracked.contains r = true) : r ∈ tagOf f r ∧ f.cappedRegs.contains r = false := by
+  unfold bodyOk paramsOk at hb
+  simp only [Bool.and_eq_true, List.all_eq_true, Bool.not_eq_true'] at hb
+  have hmem : r ∈ f.tracked := by simpa using hr
+  have := hb.1 r hmem
+  exact ⟨by simpa using this.1, this.2⟩
+
+theorem argEnv_mem {tracked : List Nat} {env : Env} {args : List Nat} {j : Nat} {s : Slice}
+    (h : s ∈ argEnv tracked env args j) :
+    tracked.contains j = true ∧ ∃ a, args[j]? = some a ∧ s ∈ env a := by
+  unfold argEnv at h
+  split at h
+  · rename_i ht
+    split at h
+    · rename_i a ha; exact ⟨ht, a, ha, h⟩
+    · cases h
+  · cases h
+
+/-- the initial registers of a function respect its tags: a tracked parameter holds its own argument -/
+theorem envOk_init {prog : List FuncIR} {f : FuncIR} (hb : bodyOk prog f = true) (args : Env) (n0 : Nat)
+    (hargs : ∀ r s, s ∈ args r → f.tracked.contains r = true) : EnvOk f args n0 args := by
+  intro r s hs
+  exact Or.inr ⟨r, (bodyOk_params hb (hargs r s hs)).1, Or.inr ⟨s, hs, Within.refl s⟩⟩
+
+theorem capOk_init {prog : List FuncIR} {f : FuncIR} (hb : bodyOk prog f = true) (args : Env)
+    (hargs : ∀ r s, s ∈ args r → f.tracked.contains r = true) : CapOk f args := by
+  intro r hr s hs
+  rw [(bodyOk_params hb (hargs r s hs)).2] at hr; cases hr
+
+/-- **Soundness, general form.**  In a program all of whose functions are consistent (`bodyOk`), every
+execution of a function `f` whose registers initially hold its argument memory `args` (and respect its
+tags) leaves every array below `n0` unchanged unless it is addressed by a parameter in `f.touches`; the
+results and all registers stay within new memory and the permitted views of the parameters their tags
+name. -/
+theorem run_ok (prog : List FuncIR) (hprog : ∀ g ∈ prog, bodyOk prog g = true) :
+    ∀ (t : Trace) (f : FuncIR) (h : Heap) (env : Env) (args : Env) (n0 : Nat),
+      f ∈ prog → n0 ≤ h.length → EnvOk f args n0 env → CapOk f env →
+      RunOk f args n0 h (run prog t f h env) := by
+  intro t
+  induction t with
+  | done =>
+    intro f h env args n0 _ _ henv _
+    simp only [run]
+    exact ⟨Nat.le_refl _, fun _ _ _ => rfl, (fun _ hs => by cases hs), (fun _ hs => by cases hs), henv⟩
+  | ev idx ns bs sub rest ihsub ihrest =>
+    intro f h env args n0 hf hn0 henv hcap
+    have hb := hprog f hf
+    simp only [run]
+    split
+    · -- no such statement
+      exact ihrest f h env args n0 hf hn0 henv hcap
+    · -- ret
+      rename_i ds cs hst
+      have hok := bodyOk_stmt hb hst
+      simp only [stmtOk, Bool.and_eq_true, List.all_eq_true] at hok
+      refine ⟨Nat.le_refl _, fun _ _ _ => rfl, ?_, ?_, henv⟩
+      · intro s hs
+        obtain ⟨x, hx, hsx⟩ := mem_flatMap_env hs
+        exact (henv x s hsx).mono (subset_mem (hok.1 x hx))
+      · intro s hs
+        obtain ⟨x, hx, hsx⟩ := mem_flatMap_env hs
+        exact (henv x s hsx).mono (subset_mem (hok.2 x hx))
+    · -- call
+      rename_i xd xc g cargs hst
+      have hok := bodyOk_stmt hb hst
+      split
+      · exact ihrest f h env args n0 hf hn0 henv hcap
+      · rename_i gf hg
+        have hgf : gf ∈ prog := List.mem_of_getElem? hg
+        have hgb := hprog gf hgf
+        simp only [stmtOk, hg, Bool.and_eq_true, Bool.not_eq_true', List.all_eq_true] at hok
+        obtain ⟨⟨⟨⟨⟨hxdc, hxcc⟩, _⟩, htouch⟩, hretD⟩, hretC⟩ := hok
+        have hinit : ∀ r s, s ∈ argEnv gf.tracked env cargs r → gf.tracked.contains r = true :=
+          fun r s hs => (argEnv_mem hs).1
+        -- the callee's run
+        have hsubOk := ihsub gf h (argEnv gf.tracked env cargs) (argEnv gf.tracked env cargs) h.length hgf
+          (Nat.le_refl _) (envOk_init hgb _ _ hinit) (capOk_init hgb _ hinit)
+        -- a permitted view of the callee's parameter j is a permitted view of the caller's args[j]
+        have hres : ∀ (T : List Nat) (x : Nat) (s : Slice),
+            (∀ j ∈ T, match cargs[j]? with
+              | some a => subset (tagOf f a) (tagOf f x) = true | none => True) →
+            Own gf (argEnv gf.tracked env cargs) h.length T s → Own f args n0 (tagOf f x) s := by
+          intro T x s hT hown
+          rcases hown with hge | ⟨j, hj, hw⟩
+          · exact Or.inl (by omega)
+          · have hTj := hT j hj
+            rcases hw with ⟨hjt, t', ht', he⟩ | ⟨t', ht', hwin⟩
+            · obtain ⟨_, ar, har, htar⟩ := argEnv_mem ht'
+              rw [har] at hTj
+              have hto := htouch j hjt
+              rw [har] at hto
+              exact ((henv ar t' htar).touched hto he).mono (subset_mem hTj)
+            · obtain ⟨_, ar, har, htar⟩ := argEnv_mem ht'
+              rw [har] at hTj
+              exact ((henv ar t' htar).sub hwin).mono (subset_mem hTj)
+        have hrestOk := ihrest f (run prog sub gf h (argEnv gf.tracked env cargs)).1
+          (upd (upd env xd (run prog sub gf h (argEnv gf.tracked env cargs)).2.1) xc
+            (run prog sub gf h (argEnv gf.tracked env cargs)).2.2.1) args n0 hf
+          (Nat.le_trans hn0 hsubOk.len)
+          (by
+            apply envOk_upd
+            · apply envOk_upd henv
+              intro s hs
+              exact hres gf.retD xd s (fun j hj => by
+                have := hretD j hj
+                split <;> simp_all) (hsubOk.retD s hs)
+            · intro s hs
+              exact hres gf.retC xc s (fun j hj => by
+                have := hretC j hj
+                split <;> simp_all) (hsubOk.retC s hs))
+          (capOk_upd (capOk_upd hcap _ _ hxdc) _ _ hxcc)
+        refine ⟨Nat.le_trans hsubOk.len hrestOk.len, ?_, hrestOk.retD, hrestOk.retC, hrestOk.env⟩
+        intro a ha hnt
+        rw [hrestOk.frame a ha hnt]
+        apply hsubOk.frame a (by omega)
+        intro j hj ⟨t', ht', hta⟩
+        obtain ⟨_, ar, har, htar⟩ := argEnv_mem ht'
+        have hsub := htouch j hj
+        rw [har] at hsub
+        exact not_touched (henv ar t' htar) hsub a ha hnt hta.symm
+    · -- a simple statement
+      rename_i st _ _ hst
+      have hok := bodyOk_stmt hb hst
+      have hs := stepSimple_ok prog args n0 f st ns bs h env hok hn0 henv hcap
+      have hr := ihrest f (stepSimple st ns bs h env).1 (stepSimple st ns bs h env).2 args n0 hf
+        (Nat.le_trans hn0 hs.len) hs.env hs.cap
+      refine ⟨Nat.le_trans hs.len hr.len, ?_, hr.retD, hr.retC, hr.env⟩
+      intro a ha hnt
+      rw [hr.frame a ha hnt, hs.frame a ha hnt]
+
+/-- the argument memory a call of `f` sees: untracked parameters are projected away -/
+def visibleArgs (f : FuncIR) (args : Env) : Env := fun r => if f.tracked.contains r then args r else []
+
+theorem runFn_ok (prog : List FuncIR) (hprog : prog.all (bodyOk prog) = true) (f : FuncIR) (hf : f ∈ prog)
+    (t : Trace) (h : Heap) (args : Env) :
+    RunOk f (visibleArgs f args) h.length h (runFn prog f t h args) := by
+  have hp : ∀ g ∈ prog, bodyOk prog g = true := by
+    intro g hg; rw [List.all_eq_true] at hprog; exact hprog g hg
+  have hinit : ∀ r s, s ∈ visibleArgs f args r → f.tracked.contains r = true := by
+    intro r s hs
+    unfold visibleArgs at hs
+    split at hs
+    · assumption
+    · cases hs
+  exact run_ok prog hp t f h (visibleArgs f args) (visibleArgs f args) h.length hf (Nat.le_refl _)
+    (envOk_init (hp f hf) _ _ hinit) (capOk_init (hp f hf) _ hinit)
+
+theorem addresses_visible {f : FuncIR} {args : Env} {j a : Nat} (h : Addresses (visibleArgs f args) j a) :
+    Addresses args j a := by
+  obtain ⟨s, hs, he⟩ := h
+  unfold visibleArgs at hs
+  split at hs
+  · exact ⟨s, hs, he⟩
+  · cases hs
+
+/-- **Soundness of the checker (frame).**  In a consistent program, a call of `f` — with any trace
+(every order and repetition of its statements and of its callees' statements, every dynamic value),
+from any heap, with its arguments anywhere in that heap (any offsets, lengths, capacities, overlaps) —
+leaves every array that existed at the call unchanged, *whole array*: visible windows, spare capacity
+and everything around them, unless the array is addressed by a parameter in `f.touches`. -/
+theorem runFn_frame (prog : List FuncIR) (hprog : prog.all (bodyOk prog) = true) (f : FuncIR) (hf : f ∈ prog)
+    (t : Trace) (h : Heap) (args : Env) (a : Nat) (ha : a < h.length)
+    (hnt : ∀ j ∈ f.touches, ¬ Addresses args j a) :
+    (runFn prog f t h args).1[a]? = h[a]? :=
+  (runFn_ok prog hprog f hf t h args).frame a ha (fun j hj hv => hnt j hj (addresses_visible hv))
+
+/-- for a function whose summary touches nothing, every existing array is unchanged -/
+theorem runFn_frame_all (prog : List FuncIR) (hprog : prog.all (bodyOk prog) = true) (f : FuncIR) (hf : f ∈ prog)
+    (hto : f.touches = []) (t : Trace) (h : Heap) (args : Env) (a : Nat) (ha : a < h.length) :
+    (runFn prog f t h args).1[a]? = h[a]? :=
+  runFn_frame prog hprog f hf t h args a ha (by rw [hto]; intro j hj; cases hj)
+
+/-- an exported function that passes `check` touches none of its caller-owned byte-slice parameters -/
+theorem check_guarded (prog : List FuncIR) (f : FuncIR) (hc : check prog f = true) (hapi : f.api = true) :
+    ∀ j ∈ f.guarded, j ∉ f.touches := by
+  unfold check at hc
+  simp only [Bool.and_eq_true, Bool.or_eq_true, Bool.not_eq_true', List.all_eq_true] at hc
+  intro j hj hjt
+  rcases hc.2 with h | h
+  · rw [hapi] at h; cases h
+  · have := h j hj
+    simp at this
+    exact this hjt
+
+/-- a slice is in new memory, or inside the visible window of a slice of one of the parameters in `T` -/
+def InWindows (args : Env) (n0 : Nat) (T : List Nat) (s : Slice) : Prop :=
+  n0 ≤ s.arr ∨ ∃ j ∈ T, ∃ t ∈ args j, Within s t
+
+theorem own_inWindows {f : FuncIR} {args : Env} {n0 : Nat} {T : List Nat} {s : Slice}
+    (hto : f.touches = []) (h : Own f (visibleArgs f args) n0 T s) : InWindows args n0 T s := by
+  rcases h with h | ⟨j, hj, hw⟩
+  · exact Or.inl h
+  · rcases hw with ⟨hjt, _⟩ | ⟨t, ht, hwin⟩
+    · rw [hto] at hjt; cases hjt
+    · refine Or.inr ⟨j, hj, t, ?_, hwin⟩
+      unfold visibleArgs at ht
+      split at ht
+      · exact ht
+      · cases ht
+
+/-- **Soundness of the checker (windows).**  A function whose summary touches nothing never holds — in
+any register, at the end of any trace, hence at any point of any execution — and never returns a slice
+of a caller's array that is not inside the visible window `[off, off+len)` of one of the argument
+slices its tag names. -/
+theorem runFn_windows (prog : List FuncIR) (hprog : prog.all (bodyOk prog) = true) (f : FuncIR) (hf : f ∈ prog)
+    (hto : f.touches = []) (t : Trace) (h : Heap) (args : Env) :
+    (∀ r s, s ∈ (runFn prog f t h args).2.2.2 r → InWindows args h.length (tagOf f r) s) ∧
+    (∀ s ∈ (runFn prog f t h args).2.1, InWindows args h.length f.retD s) ∧
+    (∀ s ∈ (runFn prog f t h args).2.2.1, InWindows args h.length f.retC s) := by
+  have hok := runFn_ok prog hprog f hf t h args
+  exact ⟨fun r s hs => own_inWindows hto (hok.env r s hs),
+    fun s hs => own_inWindows hto (hok.retD s hs), fun s hs => own_inWindows hto (hok.retC s hs)⟩
+
+/-- results live in new memory or in the arrays of the parameters the summary names -/
+theorem runFn_results (prog : List FuncIR) (hprog : prog.all (bodyOk prog) = true) (f : FuncIR) (hf : f ∈ prog)
+    (t : Trace) (h : Heap) (args : Env) :
+    (∀ s ∈ (runFn prog f t h args).2.1, h.length ≤ s.arr ∨ ∃ j ∈ f.retD, Addresses args j s.arr) ∧
+    (∀ s ∈ (runFn prog f t h args).2.2.1, h.length ≤ s.arr ∨ ∃ j ∈ f.retC, Addresses args j s.arr) := by
+  have hok := runFn_ok prog hprog f hf t h args
+  constructor
+  · intro s hs
+    rcases hok.retD s hs with h1 | ⟨j, hj, hw⟩
+    · exact Or.inl h1
+    · exact Or.inr ⟨j, hj, addresses_visible hw.addr⟩
+  · intro s hs
+    rcases hok.retC s hs with h1 | ⟨j, hj, hw⟩
+    · exact Or.inl h1
+    · exact Or.inr ⟨j, hj, addresses_visible hw.addr⟩
 
 end BtcVerif.Proofs.SliceHeap
